@@ -35,7 +35,7 @@ func replay(c *vlib.Ctx) {
 		c.Fatal("replay: the file names no known wire type / carries no encoding")
 	}
 	schema := wb.LoadSchema(c)
-	k := &checker{c: c, s: schema, stats: map[string]*typeStats{}, layout: map[string]bool{}, seenEnc: map[[32]byte]bool{}, tags: map[string]int{}}
+	k := &checker{c: c, s: schema, stats: map[string]*typeStats{}, layout: map[string]bool{}, seenEnc: map[[32]byte]bool{}, tags: map[string]int{}, dupValues: map[string]int{}}
 	for _, w := range wb.Types() {
 		if _, ok := schema[w.Name]; ok {
 			k.layout[w.Name] = true
